@@ -22,6 +22,7 @@ Lib == [ R  |-> << <<"in">>, <<"out">> >>,
          W  |-> << <<"in">>, <<"status", 201>>, <<"write", 2, "full">>, <<"next">>, <<"out">> >>,
          P  |-> << <<"in">>, <<"panic">>, <<"out">> >>,
          WP |-> << <<"in">>, <<"write", 3, "full">>, <<"panic">> >>,
+         PH |-> << <<"in">>, <<"catchnext">>, <<"out">> >>,
          NP |-> << <<"in">>, <<"next">>, <<"panic">>, <<"out">> >> ]
 
 Chains ==
